@@ -996,7 +996,7 @@ def c16(tier):
         v.tlc(name, r)
     faults_run(v, "C16", [("FALSE", "FALSE", "FALSE", 3 if not thorough else 4), ("TRUE", "FALSE", "FALSE", 3 if not thorough else 4),
                           ("FALSE", "TRUE", "FALSE", 4 if not thorough else 5),
-                          ("FALSE", "FALSE", "FALSE", 2 if not thorough else 3, "small"), ("FALSE", "FALSE", "FALSE", 2 if not thorough else 3, "big"),
+                          ("FALSE", "FALSE", "FALSE", 2 if not thorough else 3, "small"), ("FALSE", "FALSE", "FALSE", 2 if not thorough else 3, "big"), ("FALSE", "FALSE", "FALSE", 2 if not thorough else 3, "mid"),
                           ("TRUE", "FALSE", "FALSE", 2 if not thorough else 3, "small")])
     v.cov["rule"] = ("TLC: leads-to 'ended ~> torn down' and 'Server.Close ~> returned' under fairness on the Teardown specification (goroutine life cycles, ring capacities, "
                      "fan-out that blocks on a full open ring, will fan-out inside teardown). Replay: every fault sequence of bounded length enumerated by TLC from Faults (bursts of 6 KB "
